@@ -16,6 +16,7 @@ static mut APP_DELAY: u16 = 0;
 static mut APP_TIME_WRITTEN: Option<u64> = None;
 static mut APP_TIME_RESULT: u8 = 0;
 static mut CLEAR_RESTART_CALLS: u8 = 0;
+static mut FREEZE_CALLS: u8 = 0;
 
 struct App;
 impl OutstationApplication for App {
@@ -25,6 +26,10 @@ impl OutstationApplication for App {
     fn get_application_iin(&self) -> ApplicationIin {
         let v = unsafe { APP_IIN };
         ApplicationIin { need_time: v.0, local_control: v.1, device_trouble: v.2, config_corrupt: v.3 }
+    }
+    fn freeze_counter(&mut self, _indices: FreezeIndices, _freeze_type: FreezeType, _database: &mut DatabaseHandle) -> Result<(), RequestError> {
+        unsafe { FREEZE_CALLS += 1 };
+        Ok(())
     }
     fn write_absolute_time(&mut self, time: Timestamp) -> Result<(), RequestError> {
         unsafe { APP_TIME_WRITTEN = Some(time.raw_value()) };
@@ -652,6 +657,85 @@ fn c04_session_reset_drops_select() {
     s.state.reset();
     assert!(s.state.select.is_none() && s.state.last_valid_request.is_none());
     assert!(s.state.unsolicited_seq.value() == uns_seq);
+    kani::cover!(true);
+    std::mem::forget(s);
+    std::mem::forget(db);
+}
+
+// @harness c12_freeze_rejected_then_accepted
+// @props C12
+// @tier thorough
+// @timeout 3600
+// @mem 6
+// @units OutstationSession::{handle_freeze, handle_freeze_header}, HeaderCollection::{parse,iter}
+// @bounds IMMEDIATE_FREEZE / FREEZE_CLEAR with headers g22v0 (not freezable: rejected) then g20v0 (accepted), any sequence: the counters are frozen once AND the rejection is still reported (NO_FUNC_CODE_SUPPORT) - per-header results are OR-ed
+#[kani::proof]
+#[kani::unwind(8)]
+fn c12_freeze_rejected_then_accepted() {
+    let (mut s, mut db) = mk_session();
+    unsafe { FREEZE_CALLS = 0 };
+    let seq = Sequence::new(kani::any());
+    let objs = [22u8, 0, 0x06, 20, 0, 0x06];
+    let hc = HeaderCollection::parse(ParseOptions::parse_everything(), FunctionCode::ImmediateFreeze, &objs).unwrap();
+    let ft = if kani::any() { FreezeType::ImmediateFreeze } else { FreezeType::FreezeAndClear };
+    let r = s.handle_freeze(&mut db, seq, hc, ft);
+    check_empty_solicited(&r, seq);
+    assert!(r.size == 0);
+    assert!(r.header.iin.iin2.get_no_func_code_support());
+    assert!(unsafe { FREEZE_CALLS } == 1);
+    kani::cover!(true);
+    std::mem::forget(s);
+    std::mem::forget(db);
+}
+
+// @harness c12_freeze_at_time_rejected_then_accepted
+// @props C12
+// @tier thorough
+// @timeout 5400
+// @mem 8
+// @units OutstationSession::{handle_freeze_at_time, handle_freeze_header}, HeaderCollection::{parse,iter}, CountSequence<Group50Var2>::single
+// @bounds FREEZE_AT_TIME with headers g20v0 (before any time object: PARAMETER_ERROR), g50v2 count 1 (arbitrary time and interval), g20v0 (accepted): frozen exactly once and the earlier PARAMETER_ERROR survives the later accepted header
+#[kani::proof]
+#[kani::unwind(8)]
+fn c12_freeze_at_time_rejected_then_accepted() {
+    let (mut s, mut db) = mk_session();
+    unsafe { FREEZE_CALLS = 0 };
+    let seq = Sequence::new(kani::any());
+    let t: [u8; 10] = kani::any();
+    let objs = [20u8, 0, 0x06, 50, 2, 0x07, 1, t[0], t[1], t[2], t[3], t[4], t[5], t[6], t[7], t[8], t[9], 20, 0, 0x06];
+    let hc = HeaderCollection::parse(ParseOptions::parse_everything(), FunctionCode::FreezeAtTime, &objs).unwrap();
+    let r = s.handle_freeze_at_time(&mut db, seq, hc);
+    check_empty_solicited(&r, seq);
+    assert!(r.header.iin.iin2.get_parameter_error());
+    assert!(unsafe { FREEZE_CALLS } == 1);
+    kani::cover!(true);
+    std::mem::forget(s);
+    std::mem::forget(db);
+}
+
+// @harness c12_write_rejected_then_accepted
+// @props C12
+// @tier thorough
+// @class attempt
+// @timeout 5400
+// @mem 8
+// @units OutstationSession::{handle_write (async, polled once), handle_single_write_header, handle_write_iin}, HeaderCollection::{parse,iter}
+// @bounds WRITE with two g80v1 headers: [4..=4]=0 (not writable: PARAMETER_ERROR) then [7..=7]=0 (clears the restart bit: accepted), any sequence: the response must still carry PARAMETER_ERROR (a request of which ANY header is rejected is not answered cleanly) and the restart bit is cleared.  Attempt-and-report: async fn driven by a poll-once executor.
+#[kani::proof]
+#[kani::unwind(8)]
+fn c12_write_rejected_then_accepted() {
+    let (mut s, db) = mk_session();
+    s.state.restart_iin_asserted = true;
+    let seq = Sequence::new(kani::any());
+    let objs = [80u8, 1, 0x00, 4, 4, 0x00, 80, 1, 0x00, 7, 7, 0x00];
+    let hc = HeaderCollection::parse(ParseOptions::parse_everything(), FunctionCode::Write, &objs).unwrap();
+    let r = match poll_once(s.handle_write(seq, hc, &db)) {
+        Some(r) => r,
+        None => panic!("handle_write must not wait for g80v1 headers"),
+    };
+    check_empty_solicited(&r, seq);
+    assert!(!s.state.restart_iin_asserted);
+    assert!(r.header.iin.iin2.get_parameter_error());
     kani::cover!(true);
     std::mem::forget(s);
     std::mem::forget(db);
